@@ -70,6 +70,20 @@ def run(ctx):
     if rm.violated != "NoDangling":
         raise CheckBroken("design mutant 'parameters deleted under a live key set' not rejected: %r" % rm)
     ctx.add("spec_mutants_rejected", 1)
+    # unbounded length: NoDangling / DeadIsEmpty are inductive (Apalache, symbolic; both parameter kinds through a nondeterministic constant)
+    if thorough or os.environ.get("VERIF_APALACHE") == "1":
+        from vlib.common import SPEC
+        ok = 0
+        for init, length in (("Init", 0), ("IndInit", 1)):
+            rc, out, err = sh(["apalache-mc", "check", "--cinit=CInit", "--init=" + init, "--inv=IndInv", "--length=%d" % length, "--out-dir=" + os.path.join(ctx.dir, "apalache"), os.path.join(SPEC, "Life_apa.tla")], timeout=1500, cwd=ctx.dir)
+            if "The outcome is: NoError" in out:
+                ok += 1
+            elif "The outcome is: Error" in out:
+                raise CheckBroken("Apalache refutes the inductive invariant of Life_apa (%s): %s" % (init, out[-800:]))
+            else:
+                ctx.note("apalache did not conclude on Life_apa (%s, rc=%s); the TLC runs stand on their own" % (init, rc))
+        if ok == 2:
+            ctx.cov["apalache_inductive_step_Life"] = "NoError (Init => IndInv; IndInv /\\ Next => IndInv')"
     ctx.sample({"model": "MC_Life", "distinct_states": r.distinct, "invariants": "TypeOK, NoDangling, DeadIsEmpty, NoStuck"})
     plans = [("spqlios-fma", "optim", "custom", 14), ("spqlios-fma", "optim", "default", 2), ("fftw", "debug", "custom", 5)]
     if thorough:
